@@ -349,7 +349,7 @@ def q(s):
 def translate(spec, repo):
     out = ['/- GENERATED by tools/py2lean_fields.py — do not edit.  Sources: %s -/' %
            ', '.join(sorted({c['source'] for c in spec['classes'] + spec.get('argparse', []) + spec.get('dict_tables', [])
-                             + spec.get('doc_lists', [])})),
+                             + spec.get('doc_lists', []) + spec.get('list_attrs', [])})),
            'namespace %s' % spec['namespace'], '',
            '/-- the field lists of one class, as read from the source -/',
            'structure ClassInfo where',
@@ -400,6 +400,16 @@ def translate(spec, repo):
             out.append('def %s : List (String × String) := %s' % (
                 a['defaults'], lean_list('(%s, %s)' % (q(k), q(v)) for k, v in default_table(fn))))
             out.append('')
+    for a in spec.get('list_attrs', []):
+        fn = find_function(ast.parse(open(os.path.join(repo, a['source'])).read()), a.get('class'), a['function'])
+        hits = [n for n in ast.walk(fn) if isinstance(n, ast.Assign) and len(n.targets) == 1
+                and self_attr(n.targets[0]) == a['attr']]
+        if len(hits) != 1 or not isinstance(hits[0].value, ast.List) \
+                or not all(isinstance(e, ast.Constant) and isinstance(e.value, str) for e in hits[0].value.elts):
+            raise Unsupported('%s: self.%s is not assigned one list of strings' % (a['function'], a['attr']))
+        out.append('/-- `self.%s` as assigned in `%s` (%s) -/' % (a['attr'], a['function'], a['source']))
+        out.append('def %s : List String := %s' % (a['name'], lean_list(q(e.value) for e in hits[0].value.elts)))
+        out.append('')
     for a in spec.get('doc_lists', []):
         items = doc_list(open(os.path.join(repo, a['source'])).read(), a['after'])
         out.append('/-- the list after %s in %s -/' % (json.dumps(a['after']), a['source']))
